@@ -48,11 +48,19 @@ func c09Program(r *explore.Run, p *prog, st *c09Stats) {
 	}
 }
 
+// c09Extra: further passes contributed by other files of this package (appended in init functions); each
+// runs inside the one explore.Run of the check and returns text appended to the rule description.
+var c09Extra []func(r *explore.Run, st *c09Stats) string
+
 func runC09() int {
 	r := explore.New("C09")
 	st := &c09Stats{fired: map[string]int64{}}
 	texts := append(append([]wgen.Micro{}, wgen.Micros...), corpus()...)
 	forEachProgram(r, quickFamilies(r), texts, func(p *prog) { c09Program(r, p, st) })
+	extraRule := ""
+	for _, f := range c09Extra {
+		extraRule += f(r, st)
+	}
 	var unex []string
 	for _, rule := range irx.Rules() {
 		if st.fired[rule] == 0 {
@@ -64,6 +72,6 @@ func runC09() int {
 	r.Extra("rules_unexercised", unex)
 	r.Sample(map[string]any{"program": "corpus/" + "access", "rules": irx.Rules()})
 	printKeys(r)
-	return r.Finish("the module returned by LowerWithSource for every program of F1, F2 (node budget per tier), the micro-programs and the 172 corpus shaders is checked by an independent strict IR validator (24 rules: handle ranges and backward references, no abstract types, type uniqueness, recorded type = independently inferred type, emit coverage/dominance, terminators, return paths and types, store/call/atomic typing, entry-point bindings, resource bindings, plus naga's own validator); distinct = distinct canonical module hashes",
+	return r.Finish("the module returned by LowerWithSource for every program of the shared valid-program families (F1, F2, F2L, F4c, F1lit and the contributed ones), the micro-programs and the 172 corpus shaders is checked by an independent strict IR validator (24 rules: handle ranges and backward references, no abstract types, type uniqueness, recorded type = independently inferred type, emit coverage/dominance, terminators, return paths and types, store/call/atomic typing, entry-point bindings, resource bindings, plus naga's own validator)"+extraRule+"; distinct = distinct canonical module hashes",
 		[]string{"the strict validator (internal/irx) is written against the property's statement and upstream naga's valid:: rules"})
 }
